@@ -656,9 +656,10 @@ def _roles(f, safe):
         for l in ptrs:
             nm = f.locals[l]["name"]
             ds = defs_of(l)
+            c0 = caches.get("bhidx_start")
             if len(ds) == 1 and re.match(r"core::ptr::mut_ptr::<impl \*mut T>::add\(local:\w+,1\)$", ds[0]):
                 roles[nm] = "bh_next"
-            else:
+            elif (c0 is not None and any(d == "local:%s_%d" % (f.locals[c0]["name"], c0) for d in ds)) or (len(ds) == 1 and "as_mut_ptr(" in ds[0]):
                 roles[nm] = "bh"
     return roles
 
